@@ -351,7 +351,7 @@ def check_section(ctx: Ctx, case) -> None:
     body = "".join(x[0] + "\n" for x in lines)
     header = case.get("header", "ExpertSingle")
     text += f"[{header}]\n{{\n" + body + "}\n"
-    with C.capture_logs() as recs:
+    with C.capture_logs(debug=len(body) % 4 == 1) as recs:
         try:
             chart = L.parse(text)
         except Exception as e:  # noqa: BLE001
